@@ -1,6 +1,7 @@
 package serixgen
 
 import (
+	"context"
 	"fmt"
 	"math/big"
 	"reflect"
@@ -271,6 +272,8 @@ type Case struct {
 	Top     *Node
 	TopCall *serix.TypeSettings
 	TopKind string
+	// Validators: accept-all syntactic validators are registered for most pool types
+	Validators bool
 	// ShareRules: NSlU16 and NMapStrU32 are registered with one shared *ArrayRules (and lead the root struct)
 	ShareRules bool
 }
@@ -437,6 +440,7 @@ func (c *Case) drawPoolSettings(t *rapid.T) {
 		{NArr3U16{}, "NArr3U16", true}, {NArr2Circ{}, "NArr2Circ", false}} {
 		c.reg[tof(e.v)] = &regEntry{S: drawCollSettings(t, e.name, e.rules, me)}
 	}
+	c.Validators = rapid.Bool().Draw(t, "validators")
 	// one rules object shared by a slice type and a map type (bounds only): what one type's encoder or decoder does
 	// with the rules it was handed must not leak into the other type
 	if c.ShareRules = !c.Cfg.FocusTypeRules && rapid.IntRange(0, 5).Draw(t, "shareRules") == 0; c.ShareRules {
@@ -541,6 +545,23 @@ func (c *Case) registerAll() {
 	}
 	must(c.API.RegisterInterfaceObjects((*Shape)(nil), (*Circle)(nil), (*Rect)(nil), (*Poly)(nil), Dot{}, (*Addr)(nil), (*Unit)(nil)))
 	must(c.API.RegisterInterfaceObjects((*Payload)(nil), (*PayA)(nil), (*PayB)(nil), (*PayC)(nil)))
+	if c.Validators {
+		// syntactic validators that accept everything: registered by value (as the documentation recommends), so that
+		// serix has to find them for values and for pointers, on encode and after decode, whenever validation is on
+		must(c.API.RegisterValidator(Circle{}, func(context.Context, Circle) error { return nil }))
+		must(c.API.RegisterValidator(Rect{}, func(context.Context, Rect) error { return nil }))
+		must(c.API.RegisterValidator(Poly{}, func(context.Context, Poly) error { return nil }))
+		must(c.API.RegisterValidator(Dot{}, func(context.Context, Dot) error { return nil }))
+		must(c.API.RegisterValidator(Addr{}, func(context.Context, Addr) error { return nil }))
+		must(c.API.RegisterValidator(PayA{}, func(context.Context, PayA) error { return nil }))
+		must(c.API.RegisterValidator(PayB{}, func(context.Context, PayB) error { return nil }))
+		must(c.API.RegisterValidator(EmbA{}, func(context.Context, EmbA) error { return nil }))
+		must(c.API.RegisterValidator(NStrA(""), func(context.Context, NStrA) error { return nil }))
+		must(c.API.RegisterValidator(NSlU16(nil), func(context.Context, NSlU16) error { return nil }))
+		must(c.API.RegisterValidator(NSlCirc(nil), func(context.Context, NSlCirc) error { return nil }))
+		must(c.API.RegisterValidator(NMapStrU32(nil), func(context.Context, NMapStrU32) error { return nil }))
+		must(c.API.RegisterValidator(CustomU24{}, func(context.Context, CustomU24) error { return nil }))
+	}
 }
 
 // ---------------------------------------------------------------------------------------------
